@@ -122,7 +122,9 @@ CLAIMS["C10"] = dict(
          "handler or the API's fix_string.",
     note=TB + "Known finding D8 (a level already written back is neither announced nor restored when a later level fails). Assumed: the token "
               "pass __process_file_fix_tokens creates only the temporary file it returns; a fix record implies the bytes differ (a rule may "
-              "record a no-op fix); 'a file whose scan is clean is left byte-identical' rests on the rules (C09).")
+              "record a no-op fix); 'a file whose scan is clean is left byte-identical' rests on the rules (C09) and fails for failures "
+              "suppressed by pragmas: known finding D22 (fix mode never consults the pragma tables). In fix mode every line handed to "
+              "PluginManager.next_line is written to the output of the pass exactly once (D21, data loss, fixed).")
 CLAIMS["C09"] = dict(
     text="Proof of the scheduler fragment: __process_file_fix never fails internally (no ValueError from min() of an empty level map - D3 "
          "fixed; only the exceptions of the passes can escape) and returns the disjunction of the passes; __process_file_fix_next_level "
